@@ -75,7 +75,16 @@ func (m *vMonC07) AfterTx(h *vHist, o *vTxObs) {
 	hsh.Write(want)
 	m.roll = hsh.Sum(nil)
 	for ri, c := range m.replicas {
-		hashes := c.advance(o.Gap)
+		// the last replica is restarted (a new application object over the
+		// same database) at some block boundaries: anything kept only in
+		// memory would make it diverge
+		var hashes [][]byte
+		if ri == len(m.replicas)-1 && o.Gap > 0 && c.open && o.Idx%3 == 0 {
+			hashes = c.advanceRestarting(o.Gap)
+			m.res.Count("replica_restarts", 1)
+		} else {
+			hashes = c.advance(o.Gap)
+		}
 		if len(hashes) != len(o.Hashes) {
 			h.Violation("replica-lockstep", "", fmt.Sprintf("replica %d committed %d blocks, primary %d", ri+1, len(hashes), len(o.Hashes)))
 			m.failed = true
@@ -156,11 +165,12 @@ func (m *vMonC07) End(h *vHist) {
 
 func TestVerif_C07(t *testing.T) {
 	res := vs.NewResult("C07", "exploration",
-		"every tx of seeded histories (audit merges/deletes, provider updates, overdrafts with several payments, lost-bid fan-out weighted up) is delivered as identical bytes to 3 replicas of the real app in one process: code, data, gas, ordered events (and the log of successful txs) and every block's app hash must be byte-identical; a second OS process with different GOGC/GOMAXPROCS/environment replays the same seed and its per-history digests are compared. distinct = (message kind, result, number of events)")
+		"every tx of seeded histories (audit merges/deletes, provider updates, overdrafts with several payments, lost-bid fan-out weighted up) is delivered as identical bytes to 3 replicas of the real app in one process (the third one is restarted - new application object over the same database - at every third block boundary it crosses): code, data, gas, ordered events (and the log of successful txs) and every block's app hash must be byte-identical; a second OS process with different GOGC/GOMAXPROCS/environment replays the same seed and its per-history digests are compared. distinct = (message kind, result, number of events)")
 	res.Assume("replicas run in one address space per process plus one further process; Tendermint consensus itself is not run")
 	res.Floor("attestation_merge_3plus_keys", 50)
 	res.Floor("attestation_delete", 5)
 	res.Floor("histories_compared", 10)
+	res.Floor("replica_restarts", 20)
 	digests := &vC07Digests{m: map[string]string{}}
 	vRunChainCheck(t, res, vChainOpts{Histories: [2]int{70, 3000}, Templates: 3, RandomSteps: 50,
 		Tune: func(g *vGen) {
